@@ -49,9 +49,11 @@ func streamWF(c *Case) *WF {
 		up = Edge{oneToOne(w, "pre", up), "o0"}
 	}
 	pad := []int{0, 40, 100, 300}[t.Choose(simrt.StGen, 4, 0)]
+	// the streamed path may lie in a directory that does not exist yet
+	spat := []string{"{i:a}.prod.s", "streams/{i:a|basename}.prod.s", "d1/d2/{i:a|basename}.prod.s"}[t.Choose(simrt.StGen, 3, 0)]
 	prod := addNode(w, Node{Name: "prod", Kind: KProc, Cores: 1, PadTo: pad,
 		Ins:  []InSpec{{Name: "a", From: []Edge{up}}},
-		Outs: []OutSpec{{Name: "s", Pattern: "{i:a}.prod.s", Stream: true}}})
+		Outs: []OutSpec{{Name: "s", Pattern: spat, Stream: true}}})
 	cons := Node{Name: "cons", Kind: KProc, Cores: 1,
 		Ins:  []InSpec{{Name: "a", From: []Edge{{prod, "s"}}}},
 		Outs: []OutSpec{{Name: "o0", Pattern: "{i:a}.cons.o0"}}}
